@@ -15,6 +15,7 @@ import (
 	"sync"
 	"time"
 
+	"github.com/syndtr/goleveldb/leveldb"
 	"verifharness/lib/dbh"
 	"verifharness/lib/vlib"
 )
@@ -163,6 +164,12 @@ func main() {
 	var kmu sync.Mutex
 	var kcases []string
 	var bcases []bcase
+	var fflush, fcompact []fcase
+	kfFlushCap, kfCompactCap := kfCapQuickFlush, kfCapQuickCompact
+	if a.Thorough() {
+		kfFlushCap, kfCompactCap = kfCapThorFlush, kfCapThorCompact
+	}
+	leveldb.VerifPickExport(true)
 	var wg sync.WaitGroup
 	for w := 0; w < 16; w++ {
 		wg.Add(1)
@@ -181,7 +188,12 @@ func main() {
 					kb = r.Fork()
 				}
 				var mine []bcase
-				hooks := dbh.Hooks{CheckEvery: checkEvery, AfterOp: func(rn *dbh.Runner, i int, op *dbh.Op) {
+				fcol := &fcollector{}
+				hooks := dbh.Hooks{CheckEvery: checkEvery, OnEdit: func(rn *dbh.Runner, e leveldb.VerifEdit) {
+					if collect {
+						fcol.onEdit(rn, e)
+					}
+				}, AfterOp: func(rn *dbh.Runner, i int, op *dbh.Op) {
 					if kr == nil {
 						return
 					}
@@ -198,9 +210,21 @@ func main() {
 					rn.CollectK = collect
 					rn.KCap = kPerRun
 				})
+				leveldb.VerifForgetPick(rn.Stor)
 				if collect {
 					sort.SliceStable(mine, func(x, y int) bool { return mine[x].score() > mine[y].score() })
 					kmu.Lock()
+					fl, co := fcol.pick()
+					for _, c := range fl {
+						if len(fflush) < kfFlushCap && len(c.text) <= kfFileChars {
+							fflush = append(fflush, c)
+						}
+					}
+					for _, c := range co {
+						if len(fcompact) < kfCompactCap && len(c.text) <= kfFileChars {
+							fcompact = append(fcompact, c)
+						}
+					}
 					for _, kc := range rn.KCases {
 						if len(kcases) >= kcap || len(kc) > 60000 {
 							continue
@@ -268,6 +292,7 @@ func main() {
 		}
 	}
 	writeByteCases(res, a.Out, bcases)
+	writeFlushCases(res, a.Out, append(fflush, fcompact...))
 	<-xdone
 	writeBatchCases(res, a.Out, xcases)
 }
